@@ -36,10 +36,10 @@ def locVariableDefinition := str "VARIABLE_DEFINITION"
 
 def nameTypename := str "__typename"
 
-/-- the synthetic `&ast.FieldDefinition{Name: "__typename", Type: ast.NamedType("String", nil)}` -/
+/-- the synthetic `&ast.FieldDefinition{Name: "__typename", Type: ast.NonNullNamedType("String", nil)}` -/
 def typenameDef : FieldDef :=
   { desc := [], name := nameTypename, args := [], default := none,
-    type := .named (str "String") false Pos.zero, dirs := [], pos := Pos.zero }
+    type := .named (str "String") true Pos.zero, dirs := [], pos := Pos.zero }
 
 /-- expected type / definition pair assigned from a declared type -/
 def linkOfType (s : SV) (t : GType) : Option GType × Option Definition := (some t, s.type? t.name)
